@@ -310,6 +310,17 @@ def find_char(s, pred):
     return found, idx
 
 
+def rfind_char(s, pred):
+    """(found, index) of the last char satisfying pred"""
+    found = FALSE
+    idx = L(0)
+    for k in range(s.cap):
+        h = And(pred(s.chars[k]), Not(Eq(s.chars[k], Z8)))
+        idx = Ite(h, L(k), idx)
+        found = Or(h, found)
+    return found, idx
+
+
 def lines(s):
     """str::lines: list of BStr and the number of lines (BV LB).
     A line ends at '\\n'; a '\\r' directly before that '\\n' is dropped; a final
